@@ -179,8 +179,9 @@ Section Alg.
         end
     end.
 
+  (* enough for every input (C07_rr_terminates): each iteration removes a session or raises one level *)
   Definition rr_fuel (queue : list session) (levels : list (list Q)) : nat :=
-    S (List.length queue + fold_right (fun l n => (List.length l + n)%nat) O levels).
+    S (List.length queue * S (fold_right (fun l n => (List.length l + n)%nat) O levels)).
 
   Definition round_robin_full (k : sortkind) (ss : list session) : res (list Q * list rr_event) :=
     let queue := sort_sessions k ss in
